@@ -26,12 +26,6 @@ class Obligation:
         self.status = None; self.backend = None; self.time = 0.0; self.model = None; self.detail = ''
 
 
-class QForall:
-    """lazily instantiated universal fact / goal over one or more Int variables: fn(*terms) -> BoolRef"""
-    def __init__(self, fn, arity=1, name=''):
-        self.fn = fn; self.arity = arity; self.name = name
-
-
 class Frame:
     __slots__ = ('fn', 'this', 'qname', 'depth', 'loop_ord', 'ret_ty', 'closure_env')
 
@@ -64,6 +58,7 @@ class Engine:
         self.trace = False
         self.var_names = {}
         self.current_top = None
+        self.unroll_symbolic = 0      # >0: loops without contract may be unwound this many times with an unwinding obligation
         self.lazy_locals = False      # slice mode: unbound outer variables get arbitrary values on first use
         self.name_locals = 0          # depth up to which scalar locals become named symbols with a defining equation
         self.def_eqs = {}             # id of defining equation -> (symbol, expression, local name)
@@ -96,7 +91,7 @@ class Engine:
         if not isinstance(ax, (list, tuple)): ax = [ax]
         for a in ax:
             kk = (k, a.get_id())
-            present = any(p is a or (is_z3(p) and p.get_id() == a.get_id()) for p in st.pc[-40:])
+            present = any(p is a or (is_z3(p) and p.get_id() == a.get_id()) for p in st.pc[-60:])
             if not present: st.pc.append(a)
 
     def elem_ref(self, st, vref, idx):
@@ -773,7 +768,7 @@ class Engine:
         """s2 was forked from st under `cond` to evaluate a sub-expression; fold its effects back"""
         extra = s2.pc[len(st.pc) + 1:]
         for e in extra:
-            st.pc.append(z3.Implies(cond, e))
+            st.pc.append(e.guarded(cond) if isinstance(e, QForall) else z3.Implies(cond, e))
         for t_ in s2.throws:
             st.throws.append(t_)
         if s2.ghost.get('epoch', 0) != st.ghost.get('epoch', 0):
@@ -846,6 +841,8 @@ class Engine:
     def ev_InitListExpr(self, n, st, fr):
         t = TY.of_node(n)
         items = [self.rv(c, st, fr) for c in n.get('inner', [])]
+        if (n['type'].get('desugaredQualType') or n['type']['qualType']).rstrip().endswith(']'):
+            return Rec('carray', {str(i): v for i, v in enumerate(items)})
         if t.kind == 'array':
             # std::array<T,N>{{...}} has one nested InitListExpr for the C array
             if len(items) == 1 and isinstance(items[0], Rec) and items[0].t in ('carray', 'array'): items = [items[0].f[str(i)] for i in range(len(items[0].f))]
@@ -1437,8 +1434,12 @@ class Engine:
                         if z3.is_false(cs):
                             results.append((s, None)); continue
                         if not z3.is_true(cs):
-                            if not self.path_decides(s, c):
+                            if not self.unroll_symbolic:
                                 raise Unsupported('loop #%s of %s has no contract and a symbolic guard (at %s)' % (ordn, fr.qname, self.where(n, fr)))
+                            if it == self.unroll_symbolic:
+                                # complete unwinding: after N iterations the guard must be false (an obligation, not an assumption)
+                                self.obligations.append(Obligation('unwinding[%s]:at-most-%d-iterations' % (ordn, self.unroll_symbolic), s.pc, z3.Not(c), 'loop', self.where(n, fr), info={'fn': fr.qname}))
+                                s.pc.append(z3.Not(c)); results.append((s, None)); continue
                             sx = s.clone(); sx.pc.append(z3.Not(c)); results.append((sx, None))
                             s.pc.append(c)
                 if it == self.unroll_limit:
@@ -1461,6 +1462,6 @@ class Engine:
             m, _ = merge_states(normal, base=self.base_for); normal = [m]
         return [(s, None) for s in normal] + other
 
-    def path_decides(self, s, c):
+    def path_decides_unused(self, s, c):
         """for unrolling small loops whose bound is a small symbolic quantity (e.g. 0..2): allow forks"""
         return False
